@@ -7,6 +7,7 @@ import (
 	"go/types"
 	"strings"
 
+	"golang.org/x/tools/go/packages"
 	"golang.org/x/tools/go/ssa"
 
 	"verif/checker/internal/flow"
@@ -20,11 +21,12 @@ import (
 //	(b) a *Token obtained from Peek / Shift is only valid until the next Peek (which may move or
 //	    reallocate the buffer): it is never stored into heap memory.
 func (c *Ctx) tokenBuffer(rule, rel string) {
-	c.R.Rule(rule, "package "+rel+", TokenBuffer (one of three sibling copies of the look-ahead buffer): (a) in Peek every path from the entry to an assignment that resets the read position (`z.pos, z.buf = 0, buf` / `z.pos = 0`) passes a copy(…, z.buf[z.pos:]) that moves the unread tokens to the front — on a path without it tokens that were never consumed are overwritten by newly read ones and consumed tokens are replayed (a processing instruction or start tag disappears from the output); (b) SSA: no value returned by (*TokenBuffer).Peek or Shift is stored into memory other than a local variable — the next Peek may reallocate the buffer, and a pointer kept in a slice or field then refers to the abandoned array (edits made through it never reach the output)")
+	c.R.Rule(rule, "package "+rel+", TokenBuffer (one of three sibling copies of the look-ahead buffer): (a) in Peek every path from the entry to an assignment that resets the read position (`z.pos, z.buf = 0, buf` / `z.pos = 0`) passes a copy(…, z.buf[z.pos:]) that moves the unread tokens to the front — on a path without it tokens that were never consumed are overwritten by newly read ones and consumed tokens are replayed (a processing instruction or start tag disappears from the output); (b) SSA: no value returned by (*TokenBuffer).Peek or Shift is stored into memory other than a local variable — the next Peek may reallocate the buffer, and a pointer kept in a slice or field then refers to the abandoned array (edits made through it never reach the output); (c) a field slice that is reused by reslicing (`z.attrBuffer = z.attrBuffer[:n]`) still holds what the previous call put there: every path from the reslice to a return passes a range loop over that slice whose body unconditionally stores into the element of the range key (the reset to nil) — otherwise an attribute that is absent on this tag is reported with the token of an earlier tag, and the caller edits or deletes an unrelated attribute")
 	pk := c.pkg(rule, rel)
 	if pk == nil {
 		return
 	}
+	c.staleScratch(rule, pk)
 	fd := c.fn(rule, pk, "TokenBuffer.Peek")
 	if fd != nil {
 		g := c.graph(pk, fd)
@@ -430,4 +432,71 @@ func (c *Ctx) r037() {
 		c.R.Check(len(bad) == 0, rule, construct, c.pos(cond), fmt.Sprintf("%d×%d (element, attribute) pairs: only media-type valued attributes", len(tags), len(attrs)), "the value is lower-cased and stripped as a media type for "+strings.Join(bad, ", ")+", whose value is not a media type (list markers `A` / `I`, control types, names)")
 	}
 	c.R.Floor(rule, "Mediatype applications in the attribute loop", n, 1)
+}
+
+// staleScratch: clause (c) of the token buffer rule.
+func (c *Ctx) staleScratch(rule string, pk *packages.Package) {
+	n := 0
+	for _, fd := range load.FuncDecls(pk) {
+		if fd.Body == nil {
+			continue
+		}
+		var reslices []*ast.AssignStmt
+		ast.Inspect(fd.Body, func(x ast.Node) bool {
+			as, ok := x.(*ast.AssignStmt)
+			if !ok || len(as.Lhs) != 1 || len(as.Rhs) != 1 || as.Tok != token.ASSIGN {
+				return true
+			}
+			sel, isSel := as.Lhs[0].(*ast.SelectorExpr)
+			if !isSel || fd.Recv == nil || len(fd.Recv.List) == 0 || len(fd.Recv.List[0].Names) == 0 || str(sel.X) != fd.Recv.List[0].Names[0].Name {
+				return true // only state that survives the call: fields of the receiver
+			}
+			if se, ok := ast.Unparen(as.Rhs[0]).(*ast.SliceExpr); ok && se.Low == nil && se.High != nil && str(se.X) == str(as.Lhs[0]) {
+				// growing or keeping the length: z.f = z.f[:n]; `z.f = z.f[:0]` empties it and is fine
+				if k, isK := intConst(pk.TypesInfo, se.High); isK && k == 0 {
+					return true
+				}
+				if strings.Contains(nospace(str(se.High)), nospace(str(as.Lhs[0]))) {
+					return true // a bound computed from the slice's own length shortens it
+				}
+				reslices = append(reslices, as)
+			}
+			return true
+		})
+		if len(reslices) == 0 {
+			continue
+		}
+		g := c.graph(pk, fd)
+		for _, as := range reslices {
+			n++
+			field := str(as.Lhs[0])
+			from := g.NodeOf(as)
+			clears := func(y *flow.Node) bool {
+				if y.Kind != flow.KRange {
+					return false
+				}
+				rs, ok := y.Stmt.(*ast.RangeStmt)
+				if !ok || str(rs.X) != field || rs.Key == nil {
+					return false
+				}
+				for _, st := range rs.Body.List {
+					if a2, ok := st.(*ast.AssignStmt); ok && len(a2.Lhs) == 1 {
+						if ix, ok := a2.Lhs[0].(*ast.IndexExpr); ok && str(ix.X) == field && str(ix.Index) == str(rs.Key) {
+							return true
+						}
+					}
+				}
+				return false
+			}
+			var p []*flow.Node
+			if from != nil {
+				p = g.Path(flow.Search{From: []*flow.Node{from}, Goal: func(y *flow.Node) bool { return y.Kind == flow.KExit || retStmt(y) != nil }, Avoid: clears})
+			}
+			c.R.Check(from != nil && p == nil, rule, fmt.Sprintf("%s.%s/reused %s is reset", pk.Name, load.FuncName(fd), field), c.pos(as), "a range loop over it stores into every element before the function returns",
+				"the slice is reused by reslicing and the function can return without overwriting every element: entries of the previous call survive (an absent attribute is reported as the token found for an earlier tag)")
+		}
+	}
+	if pk.Name != "xml" {
+		c.R.Floor(rule, "reused result slices", n, 1)
+	}
 }
